@@ -19,7 +19,7 @@ sm = VerusUnit("c03_statemodel", "c03_statemodel", rlimit=60, paired_kani=(smw, 
 cm = VerusUnit("c07_costmodel", "c07_costmodel", rlimit=30)
 kw = KaniUnit("c01_wit", CORE, modules=[dict(file=CORE + "/src/algorithm/search/search_instance.rs", src="world.rs"),
                                        dict(file=CORE + "/src/algorithm/search/search_algorithm.rs", src="c01_wit.rs")], harnesses=[])
-kw.native_witnesses = ["c01_wit_single_via_routes_are_walks", "c03_wit_ksp_routes_report_their_own_retraversal"]
+kw.native_witnesses = ["c01_wit_single_via_routes_are_walks", "c03_wit_ksp_routes_report_their_own_retraversal", "c01_wit_ksp_edge_oriented_routes_are_walks"]
 sv = VerusUnit("c13_single_via", "c13_single_via", rlimit=60, paired_kani=(kw, []))
 yr = VerusUnit("c13_yen_run", "c13_yen_run", rlimit=60, paired_kani=(kw, []))
 sp = VerusUnit("c02_speed", "c02_speed", rlimit=30)
@@ -28,7 +28,8 @@ td = VerusUnit("c03_turn_delay", "c03_turn_delay", rlimit=30)
 ow = KaniUnit("c07_cost_ops_wit", CORE, modules=[dict(file=CORE + "/src/model/cost/cost_ops.rs", src="c07_cost_ops_wit.rs")], harnesses=[])
 ow.native_witnesses = ["c07_wit_cost_is_weight_times_rated_state_change"]
 co = VerusUnit("c07_cost_ops", "c07_cost_ops", rlimit=30, paired_kani=(ow, []))
-UNITS = [heading, turn, sm, cm, sv, yr, sp, ro, td, co, smw, kw, ow]
+ke = VerusUnit("c01_ksp_edge_oriented", "c01_ksp_edge_oriented", rlimit=60, paired_kani=(kw, []))
+UNITS = [ke, heading, turn, sm, cm, sv, yr, sp, ro, td, co, smw, kw, ow]
 EXPLANATION = ("turn classification kernels (complete over i16); StateModel get/set/add under contract (frame + `add` grows the slot by the increment converted to the feature's unit) and the accumulation lemma; "
                "per-edge state/cost split (EdgeTraversal::forward/reverse_traversal, Verus, see C07 units); the speed-table traversal model (unit c02_speed): an edge adds its length (converted) to the distance slot "
                "and length / its own table speed to the time slot, nothing else changes; the reverse half of a bidirectional route is re-traversed edge by edge in travel order, each edge after its TRUE predecessor "
